@@ -627,7 +627,10 @@ func (e *Env) selector(ex *ast.SelectorExpr, hint types.Type) Val {
 			e.fail("no field %s in %s", ex.Sel.Name, st)
 		}
 		r, _ := c.fieldRegion(st, idx)
-		return Val{T: ft, S: sx("select", c.region(e.st, r), base.S)}
+		fv := sx("select", c.region(e.st, r), base.S)
+		// heap values are well-typed (references never exceed the allocation counter of their state)
+		c.assume(c.wfAt(ft, fv, c.alloc(e.st)))
+		return Val{T: ft, S: fv}
 	}
 	if stt, ok := t.Underlying().(*types.Struct); ok {
 		idx, ft := fieldIndex(stt, ex.Sel.Name)
